@@ -138,7 +138,7 @@ def run(ctx):
     ctx.log("behaviours to replay: %d (bls %d)" % (len(behs), sum(1 for b in behs if b[0]["sch"] == "bls")))
 
     # ------------------------------------------------------------------ 2. Go harnesses on /repo's working tree
-    nrand = {"simple": 600 if quick else 20000, "bls": 300 if quick else 6000}
+    nrand = {"simple": 600 if quick else 8000, "bls": 300 if quick else 3000}
     outs, traces = {}, {}
 
     def runbin(name):
